@@ -26,8 +26,8 @@ import (
 )
 
 func main() {
-	if len(os.Args) < 2 || os.Args[1] != "C16" {
-		fmt.Fprintln(os.Stderr, "usage: mon-c16 C16 [flags]")
+	if len(os.Args) < 2 || (os.Args[1] != "C16" && os.Args[1] != "C16A") {
+		fmt.Fprintln(os.Stderr, "usage: mon-c16 C16A [flags]")
 		os.Exit(64)
 	}
 	runC16()
@@ -108,7 +108,7 @@ type engine struct {
 const taskID = "verif-c16-task"
 
 func runC16() {
-	c := vlib.Start("C16")
+	c := vlib.Start(os.Args[1])
 	defer c.Finish()
 
 	logrus.SetOutput(io.Discard)
